@@ -323,7 +323,10 @@ def match_known(known, prop, key):
 def plan_execs(prop, spec, tier, seed):
     execs = []
     seen = {}
+    only = [f for f in os.environ.get('VERIF_FLAVORS', '').split(',') if f]      # mutation trials may skip flavors
     for r in spec['runs']:
+        if only and r['flavor'] not in only:
+            continue
         n = r['execs'][tier]
         runidx = seen.get((r['harness'], r['flavor']), 0)
         seen[(r['harness'], r['flavor'])] = runidx + 1
